@@ -17,6 +17,22 @@ theorem mem_segToks (toks : List Token) (g : Segment) (i : Nat) (tk : Token)
 theorem segToks_sub (toks : List Token) (g : Segment) (tk : Token) (h : tk ∈ segToks toks g) : tk ∈ toks :=
   List.mem_of_mem_drop (List.mem_of_mem_take h)
 
+/-- in a run that reaches a verdict with `debug = 0`, every token index lies in some statement -/
+theorem index_in_some_segment {σ : Type} (step : σ → Nat → StepRes σ) (s s' : σ) (n : Nat)
+    (t : List Segment) (u : List Nat) (h : engineRun step 0 s n = .ok s' t u)
+    (i : Nat) (hi : i < n) : ∃ g ∈ t, g.start ≤ i ∧ i < g.start + g.len := by
+  unfold engineRun at h
+  have post := engineLoop_post step 0 n _ _ _ _ _ _ _ (einv_init n 0) _ _ _ h
+  have hu : u = [] := post.2 rfl
+  have hc := post.1.cov i
+  subst hu
+  simp only [cover, List.count_nil, Nat.add_zero, hi, ↓reduceIte] at hc
+  have hne : (t.filter (fun g => decide (g.start ≤ i ∧ i < g.start + g.len))) ≠ [] := by
+    intro e; rw [e] at hc; simp at hc
+  obtain ⟨g, hg⟩ := List.exists_mem_of_ne_nil _ hne
+  rw [List.mem_filter] at hg
+  exact ⟨g, hg.1, of_decide_eq_true hg.2⟩
+
 /-- in a run that reaches a verdict with `debug = 0`, every token belongs to some statement -/
 theorem token_in_some_segment {σ : Type} (step : σ → Nat → StepRes σ) (s s' : σ) (toks : List Token)
     (t : List Segment) (u : List Nat) (h : engineRun step 0 s toks.length = .ok s' t u)
